@@ -590,8 +590,8 @@ def std_summaries():
     P[r'<.* as Iterator>::rev'] = it_rev
     P[r'<.* as Iterator>::enumerate'] = it_enumerate
     P[r'<.* as Iterator>::skip'] = it_skip
-    P[r'core::slice::<impl \[.*\]>::first'] = first_last(0)
-    P[r'core::slice::<impl \[.*\]>::last'] = first_last(-1)
+    P[r'core::slice::<impl \[.*\]>::first(?:_mut)?'] = first_last(0)
+    P[r'core::slice::<impl \[.*\]>::last(?:_mut)?'] = first_last(-1)
     P[r'<Vec<.*> as Clone>::clone'] = clone_deep
     P[r'core::slice::<impl \[.*\]>::to_vec'] = clone_deep
     P[r'std::slice::<impl \[.*\]>::to_vec'] = clone_deep
